@@ -93,6 +93,10 @@ EDITS = {
  "E53-inline-polytype-setWindCount": [("@rename-text", "clipper_base.go", "func (c *clipperBase) setWindCountForClosedPathEdge(", {"getPolyType(ae2) != pt": "ae2.localMin.PolyType != pt", "isOpen(ae2)": "ae2.localMin.IsOpen", "pt := getPolyType(ae)": "pt := ae.localMin.PolyType"})],
  "E54-inline-isOpen-buildTree-doHorizontal": [("@rename-text", "clipper_base.go", "func (c *clipperBase) insertLeftEdge(", {"ae2.joinWith == JoinRight": "JoinRight == ae2.joinWith"})],
  "E55-upstream-593-contracting-guard": [("offset.go", "	co.pathOut = Path64{}\n	cnt := len(path)\n	prev := cnt - 1", "	if a := Area64(path); (a < 0) != (co.groupDelta < 0) {\n		rec := getBounds(path)\n		offsetMinDim := math.Abs(co.groupDelta) * 2\n		if offsetMinDim > float64(rec.right-rec.left) || offsetMinDim > float64(rec.bottom-rec.top) {\n			return\n		}\n	}\n	co.pathOut = Path64{}\n	cnt := len(path)\n	prev := cnt - 1")],
+ "E56-intersect-sort-as-SortFunc": [("clipper_base.go", "	sort.Slice(c.intersectList, func(i, j int) bool {\n		a, b := c.intersectList[i], c.intersectList[j]\n		if a.pt.Y != b.pt.Y {\n			return a.pt.Y > b.pt.Y\n		}\n		if a.pt.X == b.pt.X {\n			return false\n		}\n		return a.pt.X < b.pt.X\n	})",
+   "	slices.SortFunc(c.intersectList, func(a, b *IntersectNode) int {\n		if a.pt.Y != b.pt.Y {\n			if a.pt.Y > b.pt.Y {\n				return -1\n			}\n			return 1\n		}\n		if a.pt.X == b.pt.X {\n			return 0\n		}\n		if a.pt.X < b.pt.X {\n			return -1\n		}\n		return 1\n	})")],
+ "E57-minima-sort-as-SortFunc-cmp": [("clipper_base.go", "		sort.Slice(c.minimaList, func(i, j int) bool {\n			return c.minimaList[i].Vertex.pt.Y > c.minimaList[j].Vertex.pt.Y\n		})",
+   "		slices.SortStableFunc(c.minimaList, func(a, b *LocalMinima) int {\n			return cmp.Compare(b.Vertex.pt.Y, a.Vertex.pt.Y)\n		})"), ("clipper_base.go", "import (\n	\"fmt\"", "import (\n	\"cmp\"\n	\"fmt\"")],
  "E18-comment-and-blank-lines": [("rect_clip.go", "func (r *RectClip64) getNextLocation(path Path64, loc *Location, i *int, highI int) {\n	switch *loc {", "// getNextLocation advances i to the next vertex that leaves the current location.\nfunc (r *RectClip64) getNextLocation(path Path64, loc *Location, i *int, highI int) {\n\n	switch *loc {")],
 }
 def main():
